@@ -373,7 +373,14 @@ struct RefsWorld : World {
 								static const std::string longname(70000, 'n'); char nm[48]; snprintf(nm, sizeof nm, "n%d", k);
 								unsigned nk = (x >> 8) & 7; const char *name = nk < 2 ? 0 : nk < 5 ? nm : nk < 7 ? "a-name-of-forty-characters-for-this-item" : longname.c_str();
 								uint64_t fn = (nk == 6 || (x & 0x4000)) ? 1 + ((x >> 16) & 1) : 0; bool fired;
+								// the name may be the one of an entry already in the array (the pointer handed in lies inside the array's buffer for inline names)
+								std::string ownname; bool own = false;
+								if ((x & 0x30000) == 0x10000 && ia->length() > 0 && nk != 7) { long j = (long) ((x >> 18) % (uint32_t) ia->length()); const char *cur; { Sut su; cur = ia->begin()[j].name(); }
+									if (cur) { ownname = cur; name = cur; own = true; st.hit("probe:item_named_after_own_entry"); } }
 								{ Sut su(fn); ok = ia->append(obj[o], name) != 0; fired = g.fired; }
+								if (own) name = ownname.c_str();
+								if (ok) { const char *got; { Sut su; got = ia->begin()[ia->length() - 1].name(); }
+									if (std::string(got ? got : "") != std::string(name ? name : "")) fail("wrong-name", "item_array entry appended with a name of %zu characters%s reads a name of %zu characters", name ? strlen(name) : (size_t) 0, own ? " (taken from one of its own entries)" : "", got ? strlen(got) : (size_t) 0); }
 								if (ok) inames.push_back(std::make_pair(o, std::string(name ? name : "")));
 								if (nk == 7) { st.hit("probe:item_name_refused"); if (ok) fail("accepted-invalid", "item_array accepted a name of 70000 characters"); }
 								if (fired) st.hit("fault:allocfail");
